@@ -368,15 +368,30 @@ def proof_or_model_ok(mod):
 
 
 def setup():
-    ok, log = coqrun.make_all()
-    sys.stdout.write(log[-4000:])
+    """Full .vo build of the Coq project (never -vos).  `make -k` so that one
+    property's broken proof cannot hide the others; the per-property check
+    re-audits its own props file and reports a proof break itself.  Setup fails
+    only if the shared libraries do not build."""
+    with coqrun.Lock():
+        coqrun.ensure_makefile()
+        import subprocess
+        r = subprocess.run(["timeout", "3000", "make", "-k", "-j", "16"], cwd=coqrun.COQ, stdout=subprocess.PIPE,
+                           stderr=subprocess.STDOUT, text=True)
+    sys.stdout.write(r.stdout[-3000:])
     gate = coqrun.grep_gate()
     if gate:
         print("GATE HITS:", gate)
-    if not ok:
-        print("coq build failed")
-        return 2
-    return 0
+    libs_ok = all(os.path.exists(f[:-2] + ".vo") for f in coqrun.v_files() if os.sep + "lib" + os.sep in f)
+    print("setup: make rc=%d libs_ok=%s" % (r.returncode, libs_ok))
+    # warm the on-disk caches of exhaustive graph scopes
+    try:
+        from .gen import graphs
+        for n in (1, 2, 3, 4):
+            graphs.iso_classes(n, graphs.MOL_NODE_LABELS, graphs.MOL_EDGE_LABELS)
+            graphs.iso_classes(n, graphs.MOL_NODE_LABELS_NOH, graphs.MOL_EDGE_LABELS)
+    except Exception as e:
+        print("cache warm-up skipped:", e)
+    return 0 if libs_ok else 2
 
 
 def main():
